@@ -34,7 +34,12 @@ META = dict(
          "Close with records still queued - Close does not drain the queue (observed: a large share of queued records is "
          "dropped although Write returned nil), the statement only covers records processed before Close, so only "
          "'everything processed earlier is intact, queued ones that are present are in order' is claimed; (5) 'mixed': "
-         "pre-existing backups partly gz, partly plain. Not covered: a run that spans local midnight; bursts in "
+         "pre-existing backups partly gz, partly plain; (6) 'boundary': daily backups dated today-keepDays (must stay: a "
+         "date-named backup holds records up to the end of its day), one day older, one day younger, pre-existing and "
+         "just produced by the day-change rotation (current file started yesterday); (7) 'bigburst': bursts of 20-60 "
+         "records of 10-30 KB, several times maxSize, so that the writer's queue holds a backlog; 'largesmall': a large "
+         "record that triggers a rotation followed by many small ones. The barrier is bounded (ShallRotate call count, "
+         "falling back to 'queue empty and every writer goroutine parked in its select'): the files decide. Not covered: a run that spans local midnight; bursts in "
          "configurations where a backup created during the burst may itself be outdated; plain-text encoding and volume mode.",
     technique="TLA+ directory model + TLC-generated histories + TLC trace validation of the real logger's files",
     design="4/C19")
@@ -62,7 +67,7 @@ def C(rule, maxSize=0, maxBackups=0, days=0, gzip=False, pre=(), precur=0, names
 def mc(ctx):
     def rec(rule, maxSize, maxBackups, days, gzip):
         return '[rule |-> "%s", maxSize |-> %d, maxBackups |-> %d, days |-> %d, gzip |-> %s, slack |-> %d]' % (
-            rule, maxSize, maxBackups, days, "TRUE" if gzip else "FALSE", 0)
+            rule, maxSize, maxBackups, days, "TRUE" if gzip else "FALSE", 24 if rule == "daily" else 0)
     confs = [rec("size", 4, 0, 0, False), rec("size", 4, 2, 0, False), rec("size", 4, 1, 2, True),
              rec("size", 0, 0, 2, False), rec("daily", 0, 0, 2, True), rec("daily", 0, 0, 0, False)]
     pre = ('<<[ts |-> -3, ageh |-> 73, recs |-> <<101, 102>>, gz |-> FALSE], [ts |-> -2, ageh |-> 49, recs |-> <<103>>, '
@@ -184,8 +189,21 @@ def plans(ctx):
     # the second file, too, may grow beyond the maximum by at most one record
     LS_PREFIX = [(32, 32, 40), (64, 33), (60, 64), (8, 65)]
     ls_confs = [C("size", 64), C("size", 64, maxBackups=2, gzip=True, pre=[1])]
+    # retention boundary of the daily rule: backups dated today-keepDays (must stay), -1 day older (may go), one day
+    # younger; pre-existing ones and the one the day-change rotation has just produced ("yesterday": the current
+    # file was started yesterday, so its backup carries yesterday's date in the real format)
+    bound_confs = [C("daily", days=1, pre=[72, 48], names="yesterday"), C("daily", days=1, gzip=True, pre=[48], names="yesterday"),
+                   C("daily", days=2, pre=[72, 48], names="yesterday"), C("daily", days=2, gzip=True, pre=[96, 72, 48], names="yesterday"),
+                   C("daily", days=1, pre=[48, 24], names="real"), C("daily", days=2, gzip=True, pre=[72, 48, 24], names="real"),
+                   C("daily", days=2, pre=[72, 48, 24]), C("daily", days=1, gzip=True, pre=[48, 24])]
+    # backlog in the writer's queue: bursts of 20-60 records of >= 10 KB with no barrier, several times maxSize
+    KB = 1024
+    BIG = [tuple([10 * KB] * 40), tuple([12 * KB, 20 * KB] * 15), tuple([10 * KB] * 60), tuple([16 * KB] * 20)]
+    big_confs = [C("size", 100 * KB), C("size", 100 * KB, gzip=True, days=2, pre=[73, 1]), C("size", 64 * KB, maxBackups=0, pre=[1], precur=20)]
     P = []
     if ctx.quick:
+        P.append(dict(name="boundary", confs=bound_confs, sizes=[40], maxops=3, maxday=1))
+        P.append(dict(name="bigburst", confs=big_confs, sizes=[30 * KB], maxops=2, maxday=0, burst=BIG))
         P.append(dict(name="largesmall", confs=ls_confs, sizes=[8, 16], maxops=8, maxday=0, prefixes=LS_PREFIX))
         P.append(dict(name="burst", confs=burst_confs, sizes=[32, 65], maxops=3, maxday=1, burst=BURSTS))
         P.append(dict(name="mixed", confs=mixed_confs, sizes=[32, 65], maxops=4, maxday=2))
@@ -215,6 +233,9 @@ def plans(ctx):
         P.append(dict(name="realsize", confs=real_size, sizes=[32, 65], maxops=4, maxday=0, pick=48))
         P.append(dict(name="realmb", confs=real_mb, sizes=[16, MB // 2, MB, MB + 1], maxops=4, maxday=0, pick=32))
         P.append(dict(name="realdaily", confs=real_daily, sizes=[8, 40], maxops=4, maxday=1))
+        P.append(dict(name="boundary", confs=bound_confs, sizes=[8, 40], maxops=4, maxday=1))
+        P.append(dict(name="bigburst", confs=big_confs + [C("size", 256 * KB, gzip=True)], sizes=[30 * KB, 70 * KB], maxops=2, maxday=0,
+                      burst=BIG + [tuple([10 * KB, 30 * KB, 11 * KB] * 20)]))
         P.append(dict(name="largesmall", confs=ls_confs + [C("size", 64, days=2, maxBackups=1, pre=[49], precur=20)],
                       sizes=[8, 16], maxops=9, maxday=0, prefixes=LS_PREFIX + [(32, 40, 8, 8)]))
         P.append(dict(name="burst", confs=burst_confs, sizes=[32, 65], maxops=4, maxday=1, burst=BURSTS))
